@@ -1,3 +1,4 @@
+#![feature(pattern)]
 #![allow(unused, non_snake_case)]
 use vstd::prelude::*;
 use std::ops::Add;
